@@ -120,7 +120,8 @@ def run(ctx):
 
     def _slice(target):
         idx = [i for i, st in enumerate(fe.body) if isinstance(st, ast.Assign) and any(norm(t) == target for t in st.targets)]
-        ctx.require(len(idx) == 1, f"{we}: {len(idx)} top-level assignments to {target}")
+        if len(idx) != 1:
+            return None
         keep, need = [fe.body[idx[0]]], _loads(fe.body[idx[0]].value)
         for st in reversed(fe.body[: idx[0]]):
             stores = {n.id for n in ast.walk(st) if isinstance(n, ast.Name) and isinstance(n.ctx, ast.Store)}
@@ -143,6 +144,9 @@ def run(ctx):
     idents = ["A U Thor <a@example.com>", "Doe, John <j@example.com>", "Doe, John, Jr. <j@example.com>", 'J. R. "Bob" Dobbs <bob@example.com>', "Zo\xeb M\xfcller <z@example.com>"]
     for target in ("commit.author", "commit.committer"):
         sl = _slice(target)
+        if sl is None:
+            ctx.info("identity-verbatim", we, f"`{target}` is not assigned by exactly one top-level statement; slice not taken, not decided on this run")
+            continue
         bad, evaluable = [], True
         n_rows = 0
         try:
